@@ -87,14 +87,16 @@ impl Template {
                                     declare_shortcut!("M", "R.m");
                                     declare_shortcut!("O", "R.r");
                                     w.set_var_on_top_scope_init("A", |w| {
-                                        write!(w, "{{")?;
+                                        // (no prototype: a field named like a member of
+                                        // `Object.prototype` must not look advertised)
+                                        write!(w, "Object.assign(Object.create(null),{{")?;
                                         for (index, (key, size)) in bmc.list_fields().enumerate() {
                                             if index > 0 {
                                                 write!(w, ",")?;
                                             }
                                             write!(w, "{}:new Array({})", gen_lit_str(key), size)?;
                                         }
-                                        write!(w, "}}")?;
+                                        write!(w, "}})")?;
                                         Ok(())
                                     })?;
                                     declare_shortcut!("K", "U===true");
